@@ -145,6 +145,57 @@ pub fn run(tier: Tier, seed: u64) -> i32 {
         }
         rep.add(blk);
     }
+    // a stale (too low) free count in the FAT32 information sector is only a hint: whatever it says, a call may be
+    // refused for lack of space only when the TABLE has no free cluster (no statistics query and no remount here: what
+    // stats() reports from a stale hint is documented as possibly incorrect)
+    if !rep.failed() {
+        let mut blk = Block::new("stale_fsinfo_count_is_only_a_hint");
+        let mut vols = Vec::new();
+        for stale in [0u32, 1, 2, 5] {
+            let mut v = VolCfg::from_preset(12);
+            v.stale_free = Some(stale);
+            vols.push(v.clone());
+            let mut t = VolCfg::from_preset(13);
+            t.stale_free = Some(stale);
+            t.free_lo = Some(9);
+            vols.push(t);
+            let mut g = VolCfg::from_gen_preset(7);
+            g.stale_free = Some(stale);
+            vols.push(g);
+        }
+        for (i, v) in vols.iter().enumerate() {
+            let cs = v.cluster_size();
+            let mut ops = vec![Op::CreateFile { via: 0, path: "first.bin".into(), keep: 1 }];
+            for j in 0..4u8 {
+                ops.push(Op::Write { h: 0, len: cs, seed: j });
+            }
+            ops.push(Op::CloseFile { h: 0 });
+            ops.push(Op::CreateDir { via: 0, path: "d".into(), keep: 0 });
+            ops.push(Op::CreateFile { via: 0, path: "d/a file with a long name in a new directory.txt".into(), keep: 2 });
+            ops.push(Op::Write { h: 1, len: 10, seed: 7 });
+            ops.push(Op::CloseFile { h: 1 });
+            ops.push(Op::Remove { via: 0, path: "first.bin".into() });
+            ops.push(Op::CreateFile { via: 0, path: "second.bin".into(), keep: 1 });
+            for j in 0..3u8 {
+                ops.push(Op::Write { h: 0, len: cs, seed: 20 + j });
+            }
+            ops.push(Op::Seek { h: 0, whence: 0, off: cs as i64 });
+            ops.push(Op::Truncate { h: 0 });
+            ops.push(Op::Write { h: 0, len: cs, seed: 30 });
+            ops.push(Op::CloseFile { h: 0 });
+            let case = Case { vol: v.clone(), ops };
+            let mut out = hist::eval_case(&b, &case);
+            out.hash = run::hash_str(&format!("stale{}", i));
+            out.nontrivial = true;
+            blk.record(&out, || serde_json::json!({"vol": v, "ops": case.ops.len()}));
+            if let Some(m) = out.violation {
+                if blk.failure.is_none() {
+                    blk.failure = Some(run::Failure { message: format!("FS-info free count stored as {:?}: {}", v.stale_free, m), case: serde_json::to_value(&case).unwrap(), kind: "history".into() });
+                }
+            }
+        }
+        rep.add(blk);
+    }
     if !rep.failed() {
         let n = tier.pick(a.quick_cases, a.thorough_cases);
         rep.add(hist::random_block(&a, "random_stats_after_every_call", seed, n / 2));
